@@ -42,6 +42,33 @@ func textProbe() string {
 		}
 		sb.WriteByte(';')
 	}
+	// a caller may do what it likes with a returned []byte: the text of a value must not depend on it
+	for _, a := range []seccomp.Action{seccomp.ActionAllow, seccomp.ActionErrno, seccomp.ActionKillProcess, 12345, 54321} {
+		if b, err := a.MarshalText(); err == nil {
+			for i := range b {
+				b[i] = 'X'
+			}
+		}
+		b2, _ := a.MarshalText()
+		if string(b2) != a.String() {
+			sb.WriteString("TEXT-CHANGED-BY-CALLER:")
+		}
+		sb.WriteString(string(b2))
+		sb.WriteByte(';')
+	}
+	for f := 0; f < 8; f++ {
+		if b, err := seccomp.FilterFlag(f).MarshalText(); err == nil {
+			for i := range b {
+				b[i] = 'X'
+			}
+		}
+		b2, _ := seccomp.FilterFlag(f).MarshalText()
+		if string(b2) != seccomp.FilterFlag(f).String() {
+			sb.WriteString("TEXT-CHANGED-BY-CALLER:")
+		}
+		sb.WriteString(string(b2))
+		sb.WriteByte(';')
+	}
 	for _, n := range []string{"amd64", "X86_64", "386", "arm64", "ARM", "x32", "ppc64", "nope"} {
 		if ai, err := arch.GetInfo(n); err == nil {
 			fmt.Fprintf(&sb, "%s:%d:%d:%d;", ai.Name, ai.ID, len(ai.SyscallNames), ai.SyscallNames["getpid"])
@@ -107,7 +134,7 @@ func cmdDeterm() {
 				same = false
 			}
 		}
-		tsame := true
+		tsame := !strings.Contains(texts0, "TEXT-CHANGED-BY-CALLER")
 		for _, t := range texts {
 			if t != texts0 {
 				tsame = false
